@@ -7,8 +7,8 @@
 //@rule PUBCRATE :: pub\(crate\) fn :: pub fn :: R7
 //@rule PINSELF :: mut self: Pin<&mut Self>, cx: &mut Context<'_> :: &mut self, cx: &mut Context :: R15 Pin erasure: Pin<&mut Self> is a transparent wrapper for Unpin targets (Verus rejects the Unpin bound)
 //@rule OUTPUT :: Poll<Self::Output> :: Poll<()> :: R7 associated type of the dropped trait header
-//@rule REBORROW :: let this = &mut \*self;\n ::  :: R15 the reborrow `this` is inlined as `self` (Pin erased); see THIS
-//@rule THIS :: \bthis\b :: self :: R15 (a `return` inside a loop after a local reborrow loses final(self) in Verus)
+//@pyrule REBORROW :: inline_self_reborrow() :: R15 the local reborrow (`let this = &mut *self;`, whatever its name) is inlined as `self` (Pin erased; a `return` inside a loop after a local reborrow loses final(self) in Verus)
+//@rule THIS :: KEEP-NOTHING-TO-DO :: KEEP-NOTHING-TO-DO :: (subsumed by REBORROW)
 //@rule PINPOLL :: Pin::new\(&mut (self\.inner\[self\.idx\])\)\.poll\(cx\) :: \1.poll_(cx) :: R15 Pin::new(x).poll(cx) on an Unpin future is x.poll(cx); the abstract future logs the poll
 //@rule WHILELOOP :: while (self\.inner\[self\.idx\]\.poll_\(cx\)\.is_ready\(\)) \{ :: loop { if !(\1) { break; } :: R18 `while C { B }` desugared to `loop { if !(C) { break; } B }` because C has an effect (the poll) the proof must name
 //@pyrule PUBFIELDS :: pub_fields() :: R7
